@@ -359,6 +359,12 @@ pub enum Tamper {
     SwapField { at: u16, a: u16, b: u16, field: Field },
     DropItem { at: u16, item: u16 },
     DupItem { at: u16, item: u16 },
+    /// v2: a second copy of a genuine item with the same (transaction / block) hash but another block number, slot or
+    /// block hash, placed right after / right before the genuine one or at the end
+    DupItemAltered { at: u16, item: u16, what: u8, place: u8, block: u16 },
+    /// legacy: the list of set proofs rebuilt slot by slot from own proofs (bit 0) and another chain's proofs (bit 1);
+    /// at least one foreign proof, up to 5 slots
+    InterleaveSetProofs { pattern: u8, slots: u8 },
     SpliceSecond,
     SpliceForeign { front: bool },
     SwapProofs { a: u16, b: u16 },
@@ -392,6 +398,7 @@ fn tamper_name(t: &Tamper) -> String {
         Tamper::Empty(k) => format!("{head}:{k:?}"),
         Tamper::SiblingBoundaryMove { k, .. } => format!("{head}:{}", if *k > 0 { "right-to-left" } else { "left-to-right" }),
         Tamper::LeafDupPosition { fake_first, .. } => format!("{head}:{}", if *fake_first { "fake-first" } else { "fake-last" }),
+        Tamper::DupItemAltered { place, .. } => format!("{head}:{}", ["after", "before", "end"][*place as usize % 3]),
         _ => head,
     }
 }
@@ -687,6 +694,77 @@ fn apply(m: &mut Value, fmt: &mut Fmt, t: &Tamper, cx: &TamperCtx) -> bool {
             let i = pick_index(item, items.len());
             let x = items[i].clone();
             items.push(x);
+        }
+        Tamper::DupItemAltered { at, item, what, place, block } => {
+            if f == Fmt::Legacy {
+                return false;
+            }
+            let b = &cx.h.chain[pick_index(block, cx.h.chain.len())];
+            let Some(items) = items_mut(m, f, at) else { return false };
+            if items.is_empty() {
+                return false;
+            }
+            let i = pick_index(item, items.len());
+            let mut x = items[i].clone();
+            match what % 4 {
+                0 => {
+                    // the whole location of another block of the chain
+                    if f == Fmt::V2Tx {
+                        x["block_hash"] = Value::from(b.hash.clone());
+                    }
+                    x["block_number"] = Value::from(b.number);
+                    x["slot_number"] = Value::from(b.slot);
+                }
+                1 => x["block_number"] = Value::from(x["block_number"].as_u64().unwrap_or(0).wrapping_add(1 + (block % 900) as u64)),
+                2 => x["slot_number"] = Value::from(x["slot_number"].as_u64().unwrap_or(0).wrapping_add(1 + (block % 900) as u64)),
+                _ => {
+                    if f == Fmt::V2Tx {
+                        x["block_hash"] = Value::from(b.hash.clone());
+                    } else {
+                        x["slot_number"] = Value::from(b.slot);
+                    }
+                }
+            }
+            if x == items[i] {
+                return false;
+            }
+            match place % 3 {
+                0 => items.insert(i + 1, x),
+                1 => items.insert(i, x),
+                _ => items.push(x),
+            }
+        }
+        Tamper::InterleaveSetProofs { pattern, slots } => {
+            if f != Fmt::Legacy {
+                return false;
+            }
+            let Some(foreign) = cx.foreign_resp else { return false };
+            let theirs = foreign.json[container_key(f)].as_array().cloned().unwrap_or_default();
+            let mut own = m[container_key(f)].as_array().cloned().unwrap_or_default();
+            if let Some(second) = cx.second {
+                own.extend(second.json[container_key(f)].as_array().cloned().unwrap_or_default());
+            }
+            if theirs.is_empty() || own.is_empty() {
+                return false;
+            }
+            let slots = 2 + (slots % 4) as usize;
+            let mut bits: Vec<bool> = (0..slots).map(|i| pattern >> i & 1 == 1).collect();
+            if !bits.iter().any(|b| *b) {
+                let last = bits.len() - 1;
+                bits[last] = true;
+            }
+            let (mut io, mut it) = (0usize, 0usize);
+            let mut list = vec![];
+            for foreign_slot in bits {
+                if foreign_slot {
+                    list.push(theirs[it % theirs.len()].clone());
+                    it += 1;
+                } else {
+                    list.push(own[io % own.len()].clone());
+                    io += 1;
+                }
+            }
+            m[container_key(f)] = Value::from(list);
         }
         Tamper::SpliceSecond | Tamper::SpliceForeign { .. } => {
             let (src, front) = match t {
@@ -1886,6 +1964,8 @@ fn tamper_strategy() -> impl Strategy<Value = Tamper> {
         2 => (r, r, r, field()).prop_map(|(at, a, b, field)| Tamper::SwapField { at, a, b, field }),
         1 => (r, r).prop_map(|(at, item)| Tamper::DropItem { at, item }),
         1 => (r, r).prop_map(|(at, item)| Tamper::DupItem { at, item }),
+        5 => (r, r, any::<u8>(), any::<u8>(), r).prop_map(|(at, item, what, place, block)| Tamper::DupItemAltered { at, item, what, place, block }),
+        5 => (any::<u8>(), any::<u8>()).prop_map(|(pattern, slots)| Tamper::InterleaveSetProofs { pattern, slots }),
         3 => Just(Tamper::SpliceSecond),
         4 => any::<bool>().prop_map(|front| Tamper::SpliceForeign { front }),
         2 => (r, r).prop_map(|(a, b)| Tamper::SwapProofs { a, b }),
@@ -2090,8 +2170,8 @@ pub fn run(args: &Args) -> i32 {
         return check.finish();
     }
     let pool = if pool.is_empty() { vec![ChainSpec { seed: 1, first: 0, txs: vec![1; 15], up_to_idx: u16::MAX, offset: 0, epoch: 1 }] } else { pool };
-    check.section("proofs", || proof_case_strategy(pool.clone()), t.pick(10_000, 300_000), |c| proof_case(c, &known));
-    check.section("cardano-stake-distribution", stake_case_strategy, t.pick(5000, 150_000), |c| stake_case(c, &known));
+    check.section("proofs", || proof_case_strategy(pool.clone()), t.pick(40_000, 600_000), |c| proof_case(c, &known));
+    check.section("cardano-stake-distribution", stake_case_strategy, t.pick(15_000, 300_000), |c| stake_case(c, &known));
     let seeds: Vec<u64> = (0..12).map(|i| mix(check.seed, 0x5d + i) >> 1).collect();
     check.section("mithril-stake-distribution", || msd_case_strategy(seeds.clone()), t.pick(400, 10_000), msd_case);
     check.witness(KEY_STAKE_BOUNDARY, "the client accepts {pool1abc1: 23} against the certificate of {pool1abc: 123}", witness_stake_boundary);
